@@ -25,7 +25,7 @@ EXPLANATION = (
     "are read only through the typed getters, and an exception is raised only inside a function handed to the "
     "getter as valid_value_fn (so that lenient mode can fall back to the default); R17d for every rule the "
     "documentation page agrees with the code on aliases, enabled-by-default, configuration prefixes and, "
-    "per configuration item, name, type and literal default; R17e nothing reads the properties before every layer is applied. Not decided: the value-level behaviour of the "
+    "per configuration item, name, type and literal default; R17e nothing reads the properties before every layer is applied; R17f (contradiction rule) every integer validator rejects exactly the integers outside the range its own error message states - the rejection condition (if-block or early-return form) is a closed predicate over one integer and is evaluated over a window of integers; the section a rule is configured from is the result of the lookup over all its identifiers and over nothing else. Not decided: the value-level behaviour of the "
     "application_properties library (layer override, type coercion, strict-mode errors)."
 )
 ASSUMPTIONS = [
@@ -171,7 +171,15 @@ def r17b(ctx: Context) -> None:
         if len(loops) >= expected:
             rule.ok(func_key(func) + ": identifiers", f"{len(loops)} loop(s) over plugin_identifiers")
         else:
-            rule.fail(func_key(func) + ": identifiers", where(func), f"{func.short} no longer looks the rule up by every identifier (id and names): a rule addressed by an alias is treated differently")
+            wider = []
+            for node in walk_local(func.node):
+                if isinstance(node, ast.For) and isinstance(node.iter, ast.Name):
+                    values = [n.value for n in walk_local(func.node) if isinstance(n, ast.Assign) and any(isinstance(t, ast.Name) and t.id == node.iter.id for t in n.targets)]
+                    wider += [v for v in values if "plugin_identifiers" in norm(v) and not norm(v).endswith("plugin_identifiers")]
+            if wider:
+                rule.fail(func_key(func) + ": identifiers", where(func, wider[0]), f"{func.short} looks a rule up under '{norm(wider[0])[:100]}', i.e. under identifiers that are not its own: another rule's section (its 'enabled' key included) now configures this rule, so enabling or configuring one rule changes another")
+            else:
+                rule.fail(func_key(func) + ": identifiers", where(func), f"{func.short} no longer looks the rule up by every identifier (id and names): a rule addressed by an alias is treated differently")
     # identifiers = [id, *names]
     details = prog.method(PM, "__get_plugin_details")
     listed = []
@@ -453,11 +461,124 @@ def r17d(ctx: Context) -> None:
         raise AnalysisError(f"only {pages} rule pages matched")
 
 
+def _evaluate_int_predicate(expr: ast.AST, name: str, value: int) -> Optional[bool]:
+    """Evaluate a closed predicate over one integer parameter: comparisons with integer constants,
+    ``in`` / ``not in`` range(...) or a literal collection, and/or/not.  None = not of that form."""
+    def term(node: ast.AST) -> Optional[int]:
+        if isinstance(node, ast.Name) and node.id == name:
+            return value
+        if isinstance(node, ast.Constant) and isinstance(node.value, int) and not isinstance(node.value, bool):
+            return node.value
+        if isinstance(node, ast.UnaryOp) and isinstance(node.op, ast.USub):
+            inner = term(node.operand)
+            return -inner if inner is not None else None
+        return None
+
+    def members(node: ast.AST) -> Optional[Set[int]]:
+        if isinstance(node, ast.Call) and isinstance(node.func, ast.Name) and node.func.id == "range" and 1 <= len(node.args) <= 3:
+            numbers = [term(a) for a in node.args]
+            if any(n is None for n in numbers):
+                return None
+            return set(range(*numbers))  # type: ignore[arg-type]
+        if isinstance(node, (ast.Tuple, ast.List, ast.Set)):
+            numbers = [term(e) for e in node.elts]
+            return None if any(n is None for n in numbers) else set(numbers)  # type: ignore[arg-type]
+        return None
+
+    if isinstance(expr, ast.BoolOp):
+        parts = [_evaluate_int_predicate(v, name, value) for v in expr.values]
+        if any(p is None for p in parts):
+            return None
+        return all(parts) if isinstance(expr.op, ast.And) else any(parts)
+    if isinstance(expr, ast.UnaryOp) and isinstance(expr.op, ast.Not):
+        inner = _evaluate_int_predicate(expr.operand, name, value)
+        return None if inner is None else not inner
+    if isinstance(expr, ast.Compare):
+        operands = [expr.left] + list(expr.comparators)
+        verdict = True
+        for left, op, right in zip(operands, expr.ops, operands[1:]):
+            if isinstance(op, (ast.In, ast.NotIn)):
+                a, collection = term(left), members(right)
+                if a is None or collection is None:
+                    return None
+                step = (a in collection) == isinstance(op, ast.In)
+            else:
+                a, b = term(left), term(right)
+                if a is None or b is None:
+                    return None
+                step = {ast.Lt: a < b, ast.LtE: a <= b, ast.Gt: a > b, ast.GtE: a >= b, ast.Eq: a == b, ast.NotEq: a != b}.get(type(op))
+                if step is None:
+                    return None
+            verdict = verdict and step
+        return verdict
+    return None
+
+
+def _stated_range(message: str) -> Optional[Tuple[Optional[int], Optional[int]]]:
+    """(lowest, highest) accepted integer that the validator's own message states."""
+    import re as _re
+
+    text = " ".join(message.split()).lower()
+    found = _re.search(r"between (-?\d+) and (-?\d+)", text)
+    if found:
+        return int(found.group(1)), int(found.group(2))
+    found = _re.search(r"greater than or equal to (-?\d+)", text)
+    if found:
+        return int(found.group(1)), None
+    found = _re.search(r"greater than (-?\d+)", text)
+    if found:
+        return int(found.group(1)) + 1, None
+    if "non-negative" in text:
+        return 0, None
+    return None
+
+
+def r17f(ctx: Context) -> None:
+    """'An invalid value falls back to the default' presupposes that the validator rejects exactly the
+    values it says it rejects.  Contradiction rule: the integer range in the validator's own error
+    message and the set of integers its condition accepts (decided by evaluating the closed
+    predicate over a window of integers) must coincide."""
+    prog = ctx.prog
+    rule = ctx.rule("R17f", "integer validators accept exactly the range their own message states", 6)
+    for func in prog.iter_functions("pymarkdown.plugins."):
+        if len(func.params) != 2 or not func.name.lstrip("_").startswith("validate"):
+            continue
+        for node in walk_local(func.node):
+            if not (isinstance(node, ast.Raise) and isinstance(node.exc, ast.Call) and node.exc.args):
+                continue
+            message_node = node.exc.args[0]
+            message = message_node.value if isinstance(message_node, ast.Constant) and isinstance(message_node.value, str) else None
+            stated = _stated_range(message) if message else None
+            if stated is None:
+                continue
+            low, high = stated
+            window = range((low if low is not None else 0) - 3, (high if high is not None else (low or 0) + 12) + 4)
+            facts = guards_of(func.node, node)  # the conjunction under which the value is rejected (if-block or early-return form)
+            verdicts: Dict[int, Optional[bool]] = {}
+            for v in window:
+                parts = [_evaluate_int_predicate(test, func.params[1], v) for test, _pol in facts]
+                if not facts or any(p is None for p in parts):
+                    verdicts[v] = None
+                else:
+                    verdicts[v] = all(p == pol for p, (_t, pol) in zip(parts, facts))
+            condition_text = " and ".join(("" if pol else "not ") + norm(t) for t, pol in facts)
+            key = f"{func.short}: stated range"
+            if any(v is None for v in verdicts.values()):
+                rule.note(f"{func.short}: condition '{condition_text[:60]}' is not a closed integer predicate; not compared with its message")
+                continue
+            wrong = sorted(v for v, rejected in verdicts.items() if rejected == ((low is None or v >= low) and (high is None or v <= high)))
+            if wrong:
+                rule.fail(key, where(func, node), f"the validator says '{message}' but it rejects a value when '{condition_text}', which treats {wrong[:6]} the other way round: a documented valid value is replaced by the default (or stops the run in strict mode), or an invalid one is accepted")
+            else:
+                rule.ok(key, f"rejects exactly the integers outside [{low}, {high if high is not None else 'inf'}]")
+
+
 def run(ctx: Context) -> None:
     r17a(ctx)
     r17b(ctx)
     r17c(ctx)
     r17d(ctx)
+    r17f(ctx)
     from sa.rules import c18
 
     c18.config_read_after_load(ctx, "R17e")
